@@ -35,6 +35,10 @@ func runC15(c *Ctx) {
 	c12Suffixed(c)
 	c07Read(c)
 	readerReadRules(c, "C15")
+	readLineRules(c, "C15")
+	c03ParseClose(c)
+	c03CloseBody(c)
+	controlWriterRules(c, "C15")
 }
 
 // reviewedBounds: function + expression -> why the access is in range. The
